@@ -1,3 +1,175 @@
-From Thunder Require Import Lib.Json Pagination.Model.
-Theorem placeholder_c11 : True. Proof. exact I. Qed.
-Print Assumptions placeholder_c11.
+(** C11 - Pagination partitions the list: pages are complete, ordered and disjoint.
+
+    Model: Pagination/Model.v (graphql/schemabuilder/pagination.go as repaired by patches/C11-fix-1.patch,
+    internal/filter/filter.go).  [enc] is the cursor encoding (base64 in the code); only its injectivity
+    is used.  [base_list cfg l a] is the filtered, then stably sorted list; [sort_ok] says the sort field
+    is registered, [args_ok] that first/last are non-negative and not both given (exactly the arguments
+    the code accepts).  [drop_through after E E1] / [keep_until before E1 cand] are the declarative
+    meaning of the cursors: E1 = what follows the element named by [after] (all of E if there is none),
+    cand = what precedes the element named by [before] in E1 (all of E1 if there is none). *)
+From Coq Require Import List ZArith String Bool Permutation Sorted.
+From Thunder Require Import Lib.Json Pagination.Model Pagination.ProofsSlice Pagination.ProofsSort
+  Pagination.ProofsWalk Pagination.ProofsPage Pagination.ProofsMain.
+Import ListNotations.
+Open Scope list_scope.
+
+(** Walking forward with first = k > 0 from the returned end cursors, with fuel |l|+1, ends by itself
+    (flag true: hasNextPage became false), never fails, and the pages concatenated are exactly the
+    filtered, sorted list: complete, in order, and no element twice.  Every page has at most k edges and
+    reports the filtered count. *)
+Theorem walk_forward_partition :
+  forall enc, injective enc ->
+  forall cfg l a k, NoDup (map n_key l) -> sort_ok cfg a -> (0 < k)%Z ->
+  exists pages,
+    walk_forward enc cfg l a k = (map inl pages, true) /\
+    pages_nodes pages = base_list cfg l a /\
+    NoDup (map n_key (pages_nodes pages)) /\
+    Forall (fun c => (Z.of_nat (List.length (c_edges c)) <= k)%Z /\
+                     c_total c = total_count cfg l a) pages.
+Proof. exact ProofsMain.walk_forward_partition. Qed.
+Print Assumptions walk_forward_partition.
+
+(** The fuel is not what ends the walk: any larger fuel gives the same pages. *)
+Theorem walk_forward_fuel_suffices :
+  forall enc, injective enc ->
+  forall cfg l a k fuel, NoDup (map n_key l) -> sort_ok cfg a -> (0 < k)%Z -> List.length l < fuel ->
+  walk_forward_from enc fuel cfg l a k None = walk_forward enc cfg l a k.
+Proof. exact ProofsMain.walk_forward_fuel_suffices. Qed.
+Print Assumptions walk_forward_fuel_suffices.
+
+(** Symmetric: walking backward with last = k from the returned start cursors; the pages in reverse
+    order of visit concatenate to the filtered, sorted list. *)
+Theorem walk_backward_partition :
+  forall enc, injective enc ->
+  forall cfg l a k, NoDup (map n_key l) -> sort_ok cfg a -> (0 < k)%Z ->
+  exists pages,
+    walk_backward enc cfg l a k = (map inl pages, true) /\
+    pages_nodes (rev pages) = base_list cfg l a /\
+    NoDup (map n_key (pages_nodes (rev pages))) /\
+    Forall (fun c => (Z.of_nat (List.length (c_edges c)) <= k)%Z /\
+                     c_total c = total_count cfg l a) pages.
+Proof. exact ProofsMain.walk_backward_partition. Qed.
+Print Assumptions walk_backward_partition.
+
+(** Accepted arguments always give a page; an unregistered sort field or rejected first/last give an
+    error (for a non-empty list; the empty list returns the empty connection before any check). *)
+Theorem accepted_arguments_give_a_page :
+  forall enc, injective enc ->
+  forall cfg l a, NoDup (map n_key l) -> sort_ok cfg a -> args_ok a ->
+  exists c, get_connection enc cfg l a = inl c.
+Proof. exact get_connection_accepts. Qed.
+Print Assumptions accepted_arguments_give_a_page.
+
+Theorem rejected_arguments_give_an_error :
+  forall enc cfg l a, l <> [] -> sort_ok cfg a -> ~ args_ok a ->
+  exists e, get_connection enc cfg l a = inr e.
+Proof. exact get_connection_rejected. Qed.
+Print Assumptions rejected_arguments_give_an_error.
+
+Theorem unknown_sort_field_gives_an_error :
+  forall enc cfg l a, l <> [] -> ~ sort_ok cfg a -> get_connection enc cfg l a = inr ErrUnknownSort.
+Proof. exact get_connection_unknown_sort. Qed.
+Print Assumptions unknown_sort_field_gives_an_error.
+
+(** On every page totalCount is the number of elements that pass the text filter. *)
+Theorem total_count_is_filtered_count :
+  forall enc, injective enc ->
+  forall cfg l a c E1 cand, NoDup (map n_key l) -> sort_ok cfg a -> args_ok a ->
+  get_connection enc cfg l a = inl c ->
+  drop_through (a_after a) (base_edges enc cfg l a) E1 -> keep_until (a_before a) E1 cand ->
+  c_total c = total_count cfg l a.
+Proof. exact total_count_eq. Qed.
+Print Assumptions total_count_is_filtered_count.
+
+(** hasNextPage is true exactly when the page was cut short by first, or elements exist beyond the
+    element named by before. *)
+Theorem has_next_page_iff :
+  forall enc, injective enc ->
+  forall cfg l a c E1 cand, NoDup (map n_key l) -> sort_ok cfg a -> args_ok a ->
+  get_connection enc cfg l a = inl c ->
+  drop_through (a_after a) (base_edges enc cfg l a) E1 -> keep_until (a_before a) E1 cand ->
+  (c_next c = true <->
+   (exists f, a_first a = Some f /\ (f < Z.of_nat (List.length cand))%Z) \/
+   (exists p e s, E1 = p ++ e :: s /\ named (a_before a) e /\ s <> [])).
+Proof. exact has_next_iff. Qed.
+Print Assumptions has_next_page_iff.
+
+(** hasPrevPage is true exactly when the page was cut short by last, or elements exist before the
+    element named by after. *)
+Theorem has_prev_page_iff :
+  forall enc, injective enc ->
+  forall cfg l a c E1 cand, NoDup (map n_key l) -> sort_ok cfg a -> args_ok a ->
+  get_connection enc cfg l a = inl c ->
+  drop_through (a_after a) (base_edges enc cfg l a) E1 -> keep_until (a_before a) E1 cand ->
+  (c_prev c = true <->
+   (exists n, a_last a = Some n /\ (n < Z.of_nat (List.length cand))%Z) \/
+   (exists p e s, base_edges enc cfg l a = p ++ e :: s /\ named (a_after a) e /\ p <> [])).
+Proof. exact has_prev_iff. Qed.
+Print Assumptions has_prev_page_iff.
+
+(** The page is the first [first] / last [last] candidates (all of them when neither is given). *)
+Theorem page_is_slice_of_candidates :
+  forall enc, injective enc ->
+  forall cfg l a c E1 cand, NoDup (map n_key l) -> sort_ok cfg a -> args_ok a ->
+  get_connection enc cfg l a = inl c ->
+  drop_through (a_after a) (base_edges enc cfg l a) E1 -> keep_until (a_before a) E1 cand ->
+  (forall f, a_first a = Some f -> c_edges c = firstn (Z.to_nat f) cand) /\
+  (forall n, a_last a = Some n -> c_edges c = skipn (List.length cand - Z.to_nat n) cand) /\
+  (a_first a = None -> a_last a = None -> c_edges c = cand).
+Proof. exact page_slice. Qed.
+Print Assumptions page_is_slice_of_candidates.
+
+(** start/end cursors are those of the first and last edge (empty strings on an empty page). *)
+Theorem start_end_cursors_are_first_last_edge :
+  forall enc, injective enc ->
+  forall cfg l a c E1 cand, NoDup (map n_key l) -> sort_ok cfg a -> args_ok a ->
+  get_connection enc cfg l a = inl c ->
+  drop_through (a_after a) (base_edges enc cfg l a) E1 -> keep_until (a_before a) E1 cand ->
+  c_start c = match c_edges c with [] => EmptyString | e :: _ => e_cursor e end /\
+  c_end c = match c_edges c with [] => EmptyString | e :: _ => e_cursor (last (c_edges c) e) end.
+Proof. exact start_end_eq. Qed.
+Print Assumptions start_end_cursors_are_first_last_edge.
+
+(** Unknown cursors behave as absent. *)
+Theorem unknown_after_cursor_behaves_as_absent :
+  forall enc cfg l a,
+  (forall e, In e (base_edges enc cfg l a) -> ~ named (a_after a) e) ->
+  get_connection enc cfg l a = get_connection enc cfg l (set_after a None).
+Proof. exact unknown_after_absent. Qed.
+Print Assumptions unknown_after_cursor_behaves_as_absent.
+
+Theorem unknown_before_cursor_behaves_as_absent :
+  forall enc, injective enc ->
+  forall cfg l a E1, NoDup (map n_key l) -> sort_ok cfg a -> args_ok a ->
+  drop_through (a_after a) (base_edges enc cfg l a) E1 ->
+  (forall e, In e E1 -> ~ named (a_before a) e) ->
+  get_connection enc cfg l a = get_connection enc cfg l (set_before a None).
+Proof. exact unknown_before_absent. Qed.
+Print Assumptions unknown_before_cursor_behaves_as_absent.
+
+(** The cursor relations are total, so none of the statements above is vacuous. *)
+Theorem cursor_relations_total :
+  forall after before E, exists E1 cand, drop_through after E E1 /\ keep_until before E1 cand.
+Proof.
+  exact (fun after before E =>
+           match drop_through_total after E with
+           | ex_intro _ E1 H1 => match keep_until_total before E1 with
+                                 | ex_intro _ cand H2 => ex_intro _ E1 (ex_intro _ cand (conj H1 H2))
+                                 end
+           end).
+Qed.
+Print Assumptions cursor_relations_total.
+
+(** F10: for the code as found ([get_connection_orig]: edgeCount taken before the [after] slice) the
+    hasNextPage clause is false - keys 1..4, after = cursor(1), before = cursor(4). *)
+Theorem has_next_page_iff_orig_refuted :
+  exists cfg l a c E1 cand,
+    NoDup (map n_key l) /\ sort_ok cfg a /\ args_ok a /\
+    get_connection_orig base64 cfg l a = inl c /\
+    drop_through (a_after a) (base_edges base64 cfg l a) E1 /\
+    keep_until (a_before a) E1 cand /\
+    ~ (c_next c = true <->
+       (exists f, a_first a = Some f /\ (f < Z.of_nat (List.length cand))%Z) \/
+       (exists p e s, E1 = p ++ e :: s /\ named (a_before a) e /\ s <> [])).
+Proof. exact f10_refutes. Qed.
+Print Assumptions has_next_page_iff_orig_refuted.
